@@ -473,6 +473,23 @@ pub fn main(args: &[String]) {
             }
         }
     }
+    if part == "all" || part == "cheetah" {
+        // a larger degree with shapes up to several ciphertexts per operand
+        let e = env(256, 7681, vec![55, 55, 55]);
+        let shapes: Vec<(usize, usize, usize)> = if quick { vec![(3, 100, 7), (40, 20, 30), (1, 300, 1)] } else { vec![(3, 100, 7), (40, 20, 30), (1, 300, 1), (64, 64, 64), (17, 80, 96), (300, 2, 3)] };
+        for (m, r, nn) in shapes {
+            for pack in [false, true] {
+                cheetah(&e, &mut rng, m, r, nn, MatmulHelperObjective::CipherPlain, false, pack);
+                cheetah(&e, &mut rng, m, r, nn, MatmulHelperObjective::PlainCipher, true, pack);
+            }
+        }
+        let mut e2 = env(256, 7681, vec![55, 55, 55]);
+        e2.n = 256;
+        for (bs, ci, co, h, w, kh, kw) in [(1usize, 3usize, 4usize, 12usize, 12usize, 3usize, 3usize), (2, 1, 2, 20, 9, 2, 5), (1, 8, 8, 6, 6, 3, 3)] {
+            conv(&e2, &mut rng, bs, ci, co, h, w, kh, kw, false);
+            conv(&e2, &mut rng, bs, ci, co, h, w, kh, kw, true);
+        }
+    }
     if part == "all" || part == "bolt" {
         let e = env(32, 193, vec![55, 55, 55, 55]);
         let shapes: Vec<(usize, usize, usize)> = if quick {
